@@ -25,6 +25,13 @@ def conc_value(subs, dump, sid, nu, du):
     return num / den if den != 0 else None
 
 
+def conc_den(subs, dump, du):
+    """the denominator of conc_value: the whole content measured in the unit du"""
+    for b in ('mol', 'L', 'g', 'U'):
+        if du.endswith(b):
+            return histcheck.measure(subs, dump, b) / oracles.PF[du[:-len(b)]][1]
+
+
 def oracle(prog, obs, impl):
     fails = []
     subs = prog['subs']
@@ -59,6 +66,17 @@ def oracle(prog, obs, impl):
                     sd = [s for s in subs if s['id'] == op['solvent']][0]
                     if before['max'] is None and sd['kind'] != 'Enzyme' and op['solvent'] != op['solute']:
                         fails.append((i, f"dilute from {float(cur)!r} to the lower {float(tv)!r} {target[1]}/{target[2]} was refused: {o['exc']} {o.get('msg')}"))
+                    elif before['max'] is not None and sd['kind'] != 'Enzyme' and op['solvent'] != op['solute']:
+                        # with a capacity: the amount x of solvent that reaches the target solves  num / (den0 + x * k) = target  (adding
+                        # solvent leaves the numerator alone); refused only if the diluted volume does not fit
+                        one = {'cont': {op['solvent']: F(1)}, 'vol': F(0), 'max': None, 't': 'c'}
+                        k1 = conc_den(subs, one, target[2])
+                        num = cur * conc_den(subs, before, target[2])
+                        if k1 and k1 > 0:
+                            x = (num / tv - conc_den(subs, before, target[2])) / k1
+                            newvol = before['vol'] + x * histcheck.measure(subs, one, 'L') * 10**6
+                            if x > 0 and newvol <= before['max'] * (1 - F(1, 10**4)):
+                                fails.append((i, f"dilute to {dsl.conc_str(c)} needs {float(newvol)!r} uL of the container's {float(before['max'])!r} uL but was refused: {o['exc']} {o.get('msg')}"))
                 elif tv > cur * (1 + F(1, 10**4)) and o['exc'] != 'ValueError':
                     fails.append((i, f"dilute above the current concentration raised {o['exc']} instead of ValueError"))
         if op['op'] == 'fill' and 'c' in op['t'] and op['t']['c'] in dumps and o['ok']:
